@@ -25,6 +25,7 @@ from liquid2.builtin import StringLiteral
 from liquid2.builtin import parse_keyword_arguments
 from liquid2.builtin.content import ContentNode
 from liquid2.builtin.output import OutputNode
+from liquid2.exceptions import LiquidValueError
 from liquid2.exceptions import TranslationSyntaxError
 from liquid2.limits import to_int
 from liquid2.messages import MESSAGES
@@ -161,11 +162,13 @@ class TranslateNode(Node, TranslatableTag):
         """
         message_context = block_scope.pop(self.message_context_var, None)
         if message_context:
-            return (
-                str(message_context)
-                if not isinstance(message_context, str)
-                else message_context
-            )  # Just in case we get a Markupsafe object.
+            if isinstance(message_context, str):
+                return message_context  # Just in case we get a Markupsafe object.
+            try:
+                return str(message_context)
+            except ValueError as err:
+                # Not every object can be converted to a string.
+                raise LiquidValueError(str(err), token=self.token) from err
         return None
 
     def gettext(
